@@ -512,3 +512,60 @@ Section Definite.
     right; reflexivity.
   Qed.
 End Definite.
+
+(** ** Part E: the whole run-time claim of [prop_missing_id_paths] evaluated on the MODEL's outcomes *)
+From V Require Import Base.Util Model.Equal Corr.RunTG.
+
+Lemma combine_self_map {A B} (g : A -> B) l : combine l (map g l) = map (fun x => (x, g x)) l.
+Proof. induction l as [|a l IH]; [reflexivity|]. cbn [map combine]. rewrite IH. reflexivity. Qed.
+
+Section OnModel.
+  Variable c : tg_case.
+  Let r := tg_reg c.
+  Let s := settings_of (tg_spec c).
+  Variable rank : N -> nat.
+  Variable m : N.
+  Hypothesis Hgen : generable_but r s rank m.
+  Hypothesis Huniq : unique_item_paths r s.
+  Hypothesis Hrec : dr_recursive (s_dreg s) = [].
+  Hypothesis Hpaths : tg_paths c = map (fun i => obs_of (model_path r s i)) (ids_of r).
+  Hypothesis Hg : tg_gen c = obs_of (model_gen r s).
+
+  Let Hres : resolvable_but r s rank m := proj1 (proj2 Hgen).
+
+  Lemma path_claim_on_model id :
+    in_reg r id -> obs_meets (path_verdict r s id) (obs_of (model_path r s id)) = true.
+  Proof.
+    intros Hin. pose proof (path_verdict_model r s rank m Hres id (or_introl Hin)) as Hm.
+    destruct (missing_id_resolve r s rank m Hres id (or_introl Hin)) as (_ & Hok).
+    unfold model_path. destruct (path_verdict r s id) as [|f|]; [| |reflexivity].
+    - destruct Hm as (Hn & _). destruct (Hok Hn) as (t & Ht & toks & Htoks).
+      rewrite Ht. cbn [bind]. rewrite Htoks. reflexivity.
+    - destruct Hm as (-> & _ & E). rewrite E. cbn [bind obs_of obs_meets obs_is_fail list_eqb].
+      rewrite N.eqb_refl. reflexivity.
+  Qed.
+
+  Theorem descent_claims_on_model : descent_claims c = true.
+  Proof.
+    unfold descent_claims. fold r s. rewrite Hpaths, Hg.
+    apply andb_true_intro. split; [apply andb_true_intro; split|].
+    - rewrite map_length. unfold ids_of. rewrite map_length, seq_length. apply Nat.eqb_refl.
+    - rewrite combine_self_map. apply forallb_forall. intros x Hx.
+      apply in_map_iff in Hx as (id & <- & Hid). cbn [fst snd]. apply path_claim_on_model.
+      unfold ids_of in Hid. apply in_map_iff in Hid as (k & <- & Hk). apply in_seq in Hk.
+      unfold in_reg. lia.
+    - unfold gen_meets.
+      destruct (snd (gen_verdict r s) && match dangling_refs r with [] => false | _ => true end); [reflexivity|].
+      pose proof (gen_verdict_model r s rank m Hgen (types_equal r) Huniq Hrec) as Hm.
+      unfold model_gen, model_items.
+      destruct (fst (gen_verdict r s)) as [|f|]; [| |reflexivity].
+      + destruct Hm as (items & E & toks & Et). rewrite E. cbn [bind]. rewrite Et. reflexivity.
+      + destruct Hm as (-> & E). rewrite E. cbn [bind obs_of obs_is_fail list_eqb].
+        rewrite N.eqb_refl. reflexivity.
+  Qed.
+
+  Theorem prop_missing_id_paths_on_model : prop_missing_id_paths c = true.
+  Proof.
+    unfold prop_missing_id_paths. destruct (missing_id_guard c); [apply descent_claims_on_model|reflexivity].
+  Qed.
+End OnModel.
